@@ -15,6 +15,7 @@ mod p02;
 mod p03;
 mod p05;
 mod p07;
+mod p08;
 mod p09;
 mod items;
 mod p11;
@@ -46,6 +47,10 @@ macro_rules! families {
             }
             "C07" => {
                 type $f = p07::C07;
+                $body
+            }
+            "C08" => {
+                type $f = p08::C08;
                 $body
             }
             "C09" => {
